@@ -383,7 +383,8 @@ def byte_entries_step_like_the_automaton(ctx, P, ev, trans, impl_states):
                     elif verdict and tuple(sorted(new.items())) != exp[1]:
                         bad = bad or "in state %s the byte %02x leaves %s in state %s, the automaton in %s" % (dict(ist), b, f.srcname, new, dict(exp[1]))
         except AnalysisBroken as e:
-            raise AnalysisBroken("%s cannot be evaluated item by item: %s" % (f.srcname, e))
+            ctx.broken("%s cannot be evaluated item by item: %s" % (f.srcname, e))
+            continue
         ctx.ob("C18.4 R-PRODUCT", f, "one-byte-inputs-step-like-the-automaton", bad is None and n >= 256,
                ("%s is not the automaton applied to each byte: %s" % (f.srcname, bad)) if bad else
                "%d (state, byte) pairs agree with the automaton" % n)
